@@ -80,6 +80,31 @@ class C14Machine(RuleBasedStateMachine):
             name = '@REAL@/' + (rel + '/' if rel else '') + name
         self.ex.path_op(op, dfd, name, bufsize=bufsize, unstable=unstable)
 
+    @rule(name=st.sampled_from(['sd1', 'sd2', 'emptydir']), how=st.sampled_from(['remove_directory', 'rename', 'rename+recreate']),
+          ops=st.lists(st.tuples(st.sampled_from(['filestat_get', 'create_directory', 'unlink_file', 'remove_directory', 'readlink']),
+                                 st.sampled_from(['.', './.', 'x', 'a', '..', '../a'])), min_size=1, max_size=4),
+          unstable=st.booleans())
+    def stale_directory(self, name, how, ops, unstable):
+        # a directory descriptor whose path stopped naming the directory it was opened on (removed, renamed away, or replaced by a
+        # new directory of the same name): every path operation through it acts on what the descriptor's PATH names now
+        ex = self.ex
+        root = ex.preopens[0]
+        ex.path_op('create_directory', root, name)
+        fd = ex.open_dir(root, name)
+        if fd is None or ex.fds[fd]['kind'] != 'dir':
+            return
+        self.dirfds.append(fd)
+        ex.readdir(fd, 64, None, False)
+        if how == 'remove_directory':
+            ex.path_op('remove_directory', root, name)
+        else:
+            ex.path_op('rename', root, name, name + '.gone', root)
+            if how == 'rename+recreate':
+                ex.path_op('create_directory', root, name)
+        ex.flags.add('stale_directory_descriptor')
+        for op, nm in ops:
+            ex.path_op(op, fd, nm, unstable=unstable)
+
     @rule(op=st.sampled_from(['unlink_file', 'remove_directory', 'create_directory']),
           name=st.sampled_from(['/proc/version', '/proc/sys/kernel/ostype', '/proc/sys', '/proc/self/status', '/proc/no-such-entry/x']),
           di=st.integers(0, 5))
